@@ -54,10 +54,10 @@ OPFUN = {
 
 
 class Replayer:
-    def __init__(self, st, real, *, wlevel=1, check_c10=True, deep_all=False, record_obs=False):
+    def __init__(self, st, real, *, wlevel=1, check_c10=True, deep_all=False, record_obs=False, probe=True):
         self.st = st
         self.real = real
-        self.w = world.World(st, real, wlevel=wlevel)
+        self.w = world.World(st, real, wlevel=wlevel, probe=probe and not real.name.startswith("sim-mmu"))
         self.regs = {}
         self.check_c10 = check_c10
         self.deep_all = deep_all
